@@ -15,6 +15,16 @@ CHECKS = {
                      "independence of other jobs and set-algebra laws are asserted directly. Every harness must come back 'Confirmed over all paths'.",
                 note="Trusted: CrossHair path enumeration, the oracle vflib/refs.match (Python == semantics, operators need the key present). Corpus injected at Project._build_index/_job_dirs. Outside: $where, arbitrary regexes, symbolic floats, >2 jobs (3 in thorough).",
                 ref="DESIGN.md §4 C06"),
+    "C14": dict(tech="SMT-backed symbolic execution (CrossHair+z3) of DocSync.ByKey/update against a reference merge; real-file-system sync harnesses with symbolic configuration",
+                text="Bounded proof: for every presence/equality/mapping state of 4 document keys at depths 1-3, every verdict table of the key strategy over full dotted keys and strategy kinds None/predicate/regex, "
+                     "the real ByKey merge equals the reference merge (overwritten iff differing and selected; dst-only keys kept; DocumentSyncConflict names exactly the conflicting full keys; strategy only asked about full keys).",
+                note="Trusted: CrossHair path enumeration; the reference merge in harness/C14.py. Outside: src mapping vs dst scalar under one key, FileSync.Ask.",
+                ref="DESIGN.md §4 C14"),
+    "C18": dict(tech="SMT-backed symbolic execution (CrossHair+z3) of Project.detect_schema / _build_job_statepoint_index / diff_jobs against independent oracles",
+                text="Bounded proof: for all 2-job (quick) / 3-job (thorough) corpora over 12 value shapes under key a (missing, None, bool, int, equal float, str, list, empty and nested mappings) x key b, every subset selection and exclude_const, "
+                     "the detected schema equals the oracle's typed value sets and key set, and diff_jobs equals the per-job non-shared pairs and reconstructs each state point.",
+                note="Trusted: CrossHair path enumeration; oracles refs.schema/refs.diffs. Corpus injected at Project._build_index. One open known finding (empty vs non-empty mapping under exclude_const).",
+                ref="DESIGN.md §4 C18"),
 }
 NOT_YET = {}
 
